@@ -604,6 +604,140 @@ impl Check for Comatches {
     }
 }
 
+/* ------------------------------ generalized copatterns ------------------------------ */
+
+/// Clause spines over `O = codata | .a : Ret Int64 | .b : P | .f : Two -> Ret Int64 end` with
+/// `P = codata | .c : Ret Int64 | .d : Ret Int64 end`: destructor paths and argument patterns.
+const SPINES: [&str; 8] = [".a", ".b", ".b .c", ".b .d", ".f x", ".f _", ".f (+T())", ".f (+F())"];
+
+pub struct Copatterns {
+    lists: Vec<Vec<usize>>,
+    chunk: usize,
+}
+impl Copatterns {
+    pub fn new(tier: Tier) -> Self {
+        let max = if tier == Tier::Thorough { 6 } else { 5 };
+        let mut lists: Vec<Vec<usize>> = vec![vec![]];
+        let mut frontier: Vec<Vec<usize>> = vec![vec![]];
+        for _ in 0..max {
+            let mut next = vec![];
+            for l in &frontier {
+                for k in 0..SPINES.len() {
+                    let mut m = l.clone();
+                    m.push(k);
+                    next.push(m);
+                }
+            }
+            lists.extend(next.iter().cloned());
+            frontier = next;
+        }
+        Copatterns { lists, chunk: 32 }
+    }
+    fn text(list: &[usize], observe: &str) -> String {
+        let clauses: Vec<String> = list
+            .iter()
+            .enumerate()
+            .map(|(i, k)| {
+                let body = if *k == 1 { format!("comatch | .c => ret {} | .d => ret {} end", 100 + 10 * i + 1, 100 + 10 * i + 2) } else { format!("ret {}", i + 1) };
+                format!("| {} => {}", SPINES[*k], body)
+            })
+            .collect();
+        format!(
+            "let Ret = @(intrinsic(ret)) in let Thk = @(intrinsic(thk)) in let Unit = @(intrinsic(unit)) in let Int64 = @(intrinsic(i64)) in let Two = data | +T : Unit | +F : Unit end in let P = codata | .c : Ret Int64 | .d : Ret Int64 end in let O = codata | .a : Ret Int64 | .b : P | .f : Two -> Ret Int64 end in let o : Thk O = {{ comatch {} end }} in {}",
+            clauses.join(" "),
+            observe
+        )
+    }
+    /// reference: (accepted?, expected results of the five observations when accepted)
+    fn reference(list: &[usize]) -> (bool, Vec<i64>) {
+        let pos = |k: usize| -> Vec<usize> { list.iter().enumerate().filter(|(_, s)| **s == k).map(|(i, _)| i).collect() };
+        let a = pos(0);
+        let b = pos(1);
+        let bc = pos(2);
+        let bd = pos(3);
+        let f: Vec<(usize, usize)> = list.iter().enumerate().filter(|(_, s)| **s >= 4).map(|(i, s)| (i, *s)).collect();
+        // .a: exactly one clause
+        if a.len() != 1 {
+            return (false, vec![]);
+        }
+        // .b: one whole clause, or exactly one clause for each of .c and .d (never both styles)
+        let b_ok = (b.len() == 1 && bc.is_empty() && bd.is_empty()) || (b.is_empty() && bc.len() == 1 && bd.len() == 1);
+        if !b_ok {
+            return (false, vec![]);
+        }
+        // .f: the argument patterns, tried in order, must cover both constructors
+        let first = |ctor: usize| -> Option<usize> { f.iter().find(|(_, s)| *s == 4 || *s == 5 || *s == ctor).map(|(i, _)| *i) };
+        let (Some(ft), Some(ff)) = (first(6), first(7)) else { return (false, vec![]) };
+        let rb = |sub: i64| -> i64 { if b.len() == 1 { 100 + 10 * b[0] as i64 + sub } else if sub == 1 { bc[0] as i64 + 1 } else { bd[0] as i64 + 1 } };
+        (true, vec![a[0] as i64 + 1, rb(1), rb(2), ft as i64 + 1, ff as i64 + 1])
+    }
+}
+const OBSERVATIONS: [&str; 5] = ["! o .a", "! o .b .c", "! o .b .d", "! o .f (+T() : Two)", "! o .f (+F() : Two)"];
+
+impl Check for Copatterns {
+    fn property(&self) -> &'static str {
+        "C04"
+    }
+    fn name(&self) -> String {
+        "c04-copatterns".into()
+    }
+    fn len(&self) -> usize {
+        self.lists.len().div_ceil(self.chunk)
+    }
+    fn describe(&self, i: usize) -> String {
+        format!("clause lists #{}..; first:\n{}", i * self.chunk, Self::text(&self.lists[i * self.chunk], OBSERVATIONS[0]))
+    }
+    fn rule(&self) -> String {
+        format!("every ordered list of <= 5 (thorough 6) generalized comatch clauses over the spines {:?} (destructor paths through a nested codata type, a whole-subobject clause, and a function destructor with variable / wildcard / constructor argument patterns) at O = codata | .a : Ret Int64 | .b : P | .f : Two -> Ret Int64 end ({} lists); oracle: accepted iff .a has exactly one clause, .b has either one whole clause or exactly one clause for each of .b .c and .b .d (never both styles), and the argument patterns of the .f clauses cover both constructors (redundant later clauses are allowed, first match wins); when accepted, each of the five observations returns the number of the clause the reference selects; non-trivial = lists of length >= 3", SPINES, self.lists.len())
+    }
+    fn timeout(&self) -> std::time::Duration {
+        std::time::Duration::from_secs(120)
+    }
+    fn run(&mut self, i: usize) -> CaseResult {
+        let scratch = Scratch::new("c04cop");
+        let a = i * self.chunk;
+        let b = (a + self.chunk).min(self.lists.len());
+        let mut r = CaseResult::ok("chunk").key(i as u64).nontrivial(self.lists[a].len() >= 3);
+        for list in &self.lists[a..b] {
+            let (want_acc, want_res) = Self::reference(list);
+            r = r.count("clause_lists", 1).count("reference_accepts", want_acc as u64);
+            for (k, obs) in OBSERVATIONS.iter().enumerate() {
+                // acceptance does not depend on the observation: decide it on the first, run the rest only when accepted
+                if k > 0 && !want_acc {
+                    break;
+                }
+                let text = Self::text(list, obs);
+                let path = scratch.write("main.zydeco", &text);
+                match guarded(|| {
+                    let s = Subject::analyze(&path);
+                    let v = s.verdict();
+                    let run = if v.accepted() { Some(s.run(b"", &[], 2000)) } else { None };
+                    (v, run)
+                }) {
+                    | Err(p) => {
+                        r = r.violation(format!("checker panics on a comatch clause list: {}", crate::front::short_msg(&p.msg)), format!("{:?}\n{}", p, text));
+                        break;
+                    }
+                    | Ok((v, run)) => {
+                        if v.accepted() != want_acc {
+                            r = r.violation(if want_acc { "a complete, non-overlapping comatch clause list is rejected".to_string() } else { "an incomplete or overlapping comatch clause list is accepted".to_string() }, format!("{:?}\n{}", v, text));
+                            break;
+                        }
+                        if let Some(run) = run {
+                            let want = format!("Integer({})", want_res[k]);
+                            match &run.end {
+                                | RunEnd::Ret(got) if *got == want => {}
+                                | other => r = r.violation("an observation of an accepted comatch selects the wrong clause".to_string(), format!("{obs}: got {:?}, expected {want}\n{}", other, text)),
+                            }
+                        }
+                    }
+                }
+            }
+        }
+        r
+    }
+}
+
 pub fn checks(tier: Tier) -> Vec<Box<dyn Check>> {
-    vec![Box::new(Matches::new(tier)), Box::new(Comatches::new())]
+    vec![Box::new(Matches::new(tier)), Box::new(Comatches::new()), Box::new(Copatterns::new(tier))]
 }
